@@ -410,7 +410,8 @@ def check_c07(run: Run, prog: Program) -> None:
         "tensor_shape[0] resp. [1] times. (E19.act) The property itself for the generic action, as polynomial identities in the entries of a symbolic matrix T "
         "(Tensor.__apply__, TransformationTensor.inverse and the duality dispatcher interpreted; `inv` read as the adjugate): (t*h).(t*p) = det T (h.p) for a point and "
         "a hyperplane of the plane and of 3-space, t*join(p, q) ~ join(t*p, t*q), t*meet(l, m) ~ meet(t*l, t*m), and (t*x)^T (t*Q) (t*x) = det T^2 (x^T Q x) for a conic "
-        "with a point and for a dual conic with a line. NOT decided: lines of 3-space and polytopes (their __apply__ overrides are covered by the kind rules only), "
+        "with a point and for a dual conic with a line; in 3-space t*join(p, q, r) ~ join(t*p, t*q, t*r), and - at an integer point in the quick tier, as identities in the "
+        "thorough tier - t*meet(e, f, g) ~ meet(t*e, t*f, t*g) and t*join(p, q) ~ join(t*p, t*q) for the line. NOT decided: polytopes (their __apply__ overrides are covered by the kind rules only), "
         "cross-ratio invariance (follows from the closed form of C11 and the identities above, not checked as such), collections."
     )
     n2 = variance.rule_V2(run, prog)
